@@ -36,6 +36,9 @@ def file_props():
                 m[f].add(pid)
         except Exception:
             pass
+    for f in list(m):
+        if f.startswith(("stix2/v20/", "stix2/v21/")):
+            m[f].update(("C01", "C03", "C15", "C05"))      # the per-type tables are read by every property that sweeps the frozen model
     return m
 
 
